@@ -7,7 +7,7 @@ Roles of TLC (see DESIGN.md section 1):
       *Trace spec                                   -> tlc_validate()
 Only R3 rejections of behaviour recorded on the real code produce verdicts.
 """
-import json, os, re, shutil, subprocess, sys, tempfile, time, fcntl, hashlib
+import json, os, re, shutil, signal, subprocess, sys, tempfile, time, fcntl, hashlib
 from concurrent.futures import ThreadPoolExecutor
 
 VERIF = os.path.dirname(os.path.dirname(os.path.abspath(__file__)))
@@ -240,11 +240,27 @@ def run_harness(binary, args, timeout=900, env=None, stdin=None):
     e = dict(os.environ)
     if env:
         e.update(env)
+    p = subprocess.Popen([binary] + list(args), stdout=subprocess.PIPE, stderr=subprocess.PIPE, stdin=subprocess.PIPE if stdin is not None else None,
+                         env=e, text=True, errors="replace")
     try:
-        p = subprocess.run([binary] + list(args), stdout=subprocess.PIPE, stderr=subprocess.PIPE, timeout=timeout, env=e, text=True, errors="replace", input=stdin)
+        out, err = p.communicate(input=stdin, timeout=timeout)
     except subprocess.TimeoutExpired:
-        raise Infra("harness timeout: %s" % " ".join(args))
-    return p
+        # ask the Go runtime for a goroutine dump before giving up: says where the driver is stuck
+        p.send_signal(signal.SIGQUIT)
+        try:
+            out, err = p.communicate(timeout=20)
+        except subprocess.TimeoutExpired:
+            p.kill()
+            out, err = p.communicate()
+        dump = os.path.join(VERIF, ".scratch", "harness-timeout-%d.txt" % os.getpid())
+        try:
+            os.makedirs(os.path.dirname(dump), exist_ok=True)
+            with open(dump, "w") as f:
+                f.write(err)
+        except OSError:
+            dump = "(not written)"
+        raise Infra("harness timeout: %s (goroutine dump: %s)" % (" ".join(args), dump))
+    return subprocess.CompletedProcess([binary] + list(args), p.returncode, out, err)
 
 
 # ---------------------------------------------------------------- findings
